@@ -81,3 +81,61 @@ func specALUGroup(m string) bool {
 func specIsUpper(s string) bool { return strings.ToUpper(s) == s }
 
 var _ = ng_operand.CodeIMM
+
+// ---------------------------------------------------------------------------
+// Hand-written fallback rows (C01): which operand goes into which ModR/M field is fixed by the
+// instruction set, not a free choice: a segment or control register operand is always encoded in
+// the reg field, the general register beside it in r/m (SDM Vol. 2: MOV r/m16,Sreg = 8C /r,
+// MOV Sreg,r/m16 = 8E /r, MOV r32,CRn = 0F 20 /r, MOV CRn,r32 = 0F 22 /r).
+// ---------------------------------------------------------------------------
+
+func specIsSpecialRegType(t string) bool { return t == "sreg" || t == "creg" }
+
+func specIsGeneralRegType(t string) bool { return t == "r16" || t == "r32" || t == "r8" }
+
+// specFormRolesOK: for a two-operand form with one segment/control register and one general
+// register, every encoding with a ModR/M byte puts the special register into reg and the general
+// register into r/m.
+func specFormRolesOK(f InstructionForm) bool {
+	if f.Operands == nil || len(*f.Operands) != 2 || len(f.Encodings) != 1 || f.Encodings[0].ModRM == nil {
+		return true
+	}
+	t0, t1 := (*f.Operands)[0].Type, (*f.Operands)[1].Type
+	m := f.Encodings[0].ModRM
+	switch {
+	case specIsSpecialRegType(t0) && specIsGeneralRegType(t1):
+		return m.Reg == "#0" && m.Rm == "#1" && m.Mode == "11"
+	case specIsGeneralRegType(t0) && specIsSpecialRegType(t1):
+		return m.Reg == "#1" && m.Rm == "#0" && m.Mode == "11"
+	}
+	return true
+}
+
+// specMovSpecialOpcode: the opcode of the MOV forms with a segment or control register.
+func specMovSpecialOpcode(f InstructionForm) bool {
+	if f.Operands == nil || len(*f.Operands) != 2 || len(f.Encodings) != 1 {
+		return true
+	}
+	t0, t1 := (*f.Operands)[0].Type, (*f.Operands)[1].Type
+	op := f.Encodings[0].Opcode.Byte
+	switch {
+	case t0 == "r16" && t1 == "sreg":
+		return op == "8C"
+	case t0 == "sreg" && t1 == "r16":
+		return op == "8E"
+	case t0 == "r32" && t1 == "creg":
+		return op == "0F20"
+	case t0 == "creg" && t1 == "r32":
+		return op == "0F22"
+	}
+	return true
+}
+
+func specMovForms() []InstructionForm { return instructionData.Instructions["MOV"].Forms }
+
+//@ func addMovFallbackEncodings
+//@ props C01
+//@ option no-panic-obligations
+//@ ensures[roles] forall(old(len(specMovForms())), len(specMovForms()), func(k int) bool { return specFormRolesOK(specMovForms()[k]) })
+//@ ensures[opcodes] forall(old(len(specMovForms())), len(specMovForms()), func(k int) bool { return specMovSpecialOpcode(specMovForms()[k]) })
+//@ assigns *
